@@ -12,6 +12,8 @@ use serde::{Deserialize, Serialize};
 pub enum Amount {
     Plain(NumLit),
     Money(MoneyLit),
+    /// a whole number written as a 0x / 0o / 0b literal: (value, base 16 | 8 | 2) - a number like any other
+    Based(u32, u8),
 }
 
 impl Amount {
@@ -19,11 +21,12 @@ impl Amount {
         match self {
             Amount::Plain(n) => n.value(),
             Amount::Money(m) => m.value(),
+            Amount::Based(n, _) => *n as f64,
         }
     }
     pub fn code(&self) -> Option<String> {
         match self {
-            Amount::Plain(_) => None,
+            Amount::Plain(_) | Amount::Based(..) => None,
             Amount::Money(m) => Some(m.code()),
         }
     }
@@ -31,6 +34,7 @@ impl Amount {
         match self {
             Amount::Plain(n) => Tok::num(n.clone()),
             Amount::Money(m) => m.tok(),
+            Amount::Based(n, b) => crate::c13::Src { n: *n as u64, base: *b, frac: None, prefix_upper: false, digit_case: 0, pad: 0 }.tok(),
         }
     }
 }
@@ -199,7 +203,8 @@ impl Prop for PctProp {
         // X + p% and X - p% are sums: the tolerance is relative to the operands, not to a result that may cancel
         let scale = c.x.value().abs().max((c.x.value() * c.p.p.value() / 100.0).abs());
         match (&slot, expected(c)) {
-            (Slot::Ok { v: V::Num(g, NT::Decimal), .. }, Expect::Num(e)) => {
+            // (what notation the result of a phrase over a based literal is shown in is C13's business: the VALUE is asserted)
+            (Slot::Ok { v: V::Num(g, nt), .. }, Expect::Num(e)) if *nt == NT::Decimal || matches!(c.x, Amount::Based(..)) => {
                 if !close_scaled(*g, e, scale) {
                     acc.fail(format!("expected {} got {}", e, g));
                 }
@@ -370,7 +375,7 @@ pub fn amount_strategy() -> impl Strategy<Value = Amount> {
     // written `<amount> <code>`
     let unrated: Vec<String> = vocab().all_currency_keys.iter().filter(|k| !vocab().rated.iter().any(|r| r.key == **k)).cloned().collect();
     let any_code = (crate::c06::amount_strategy(), prop::sample::select(unrated), 1u8..=2, 0u8..5, any::<u32>()).prop_map(|(amount, cur, sp, cp, bits)| MoneyLit { amount, suffix: None, cur, spelling: crate::c06::Spelling::CodeAfter(sp, cp, bits) }.normalise());
-    prop_oneof![3 => value_strategy().prop_map(Amount::Plain), 2 => money_lit(rated_key()).prop_map(Amount::Money), 1 => any_code.prop_map(Amount::Money)]
+    prop_oneof![3 => value_strategy().prop_map(Amount::Plain), 2 => money_lit(rated_key()).prop_map(Amount::Money), 1 => any_code.prop_map(Amount::Money), 1 => (0u32..=100_000, prop::sample::select(vec![16u8, 8, 2])).prop_map(|(n, b)| Amount::Based(n, b))]
 }
 
 pub fn case_strategy() -> impl Strategy<Value = Case> {
@@ -379,11 +384,13 @@ pub fn case_strategy() -> impl Strategy<Value = Case> {
         // amount of money and the other a plain number (the percentage of the two amounts)
         let mixed = via == 3 && phrase == Phrase::WhatPct;
         let b = match (&x, mixed) {
-            (Amount::Plain(_), false) => Amount::Plain(bv),
+            (Amount::Plain(_), false) | (Amount::Based(..), false) => Amount::Plain(bv),
             (Amount::Money(m), false) => Amount::Money(MoneyLit { amount: bv, suffix: None, ..m.clone() }.normalise()),
-            (Amount::Plain(_), true) => Amount::Money(MoneyLit { amount: bv, suffix: None, cur: "usd".into(), spelling: crate::c06::Spelling::CodeAfter(1, 0, 0) }),
+            (Amount::Plain(_), true) | (Amount::Based(..), true) => Amount::Money(MoneyLit { amount: bv, suffix: None, cur: "usd".into(), spelling: crate::c06::Spelling::CodeAfter(1, 0, 0) }),
             (Amount::Money(_), true) => Amount::Plain(bv),
         };
+        // a based literal stands in the phrases a rule evaluates (of / on / off, either order)
+        let phrase = if matches!(x, Amount::Based(..)) && matches!(phrase, Phrase::Plus | Phrase::Minus | Phrase::WhatPct | Phrase::OfWhat) { Phrase::OfPX } else { phrase };
         Case { phrase, x, b, p: Pct { p, prefix }, op_space, seps, via, order }
     })
 }
